@@ -2,6 +2,9 @@
  *   h_crc pairs  LO HI          all states c in [LO,HI) x all 256 bytes
  *   h_crc pairs2 LO HI          all states c in [LO,HI) x all 65536 two-byte inputs, whole and split 1+1
  *   h_crc random SEED N         N random buffers, misaligned, whole vs 2-splits / k-splits vs reference
+ *   h_crc long SEED MAXLOG2     long buffers: lengths 2^k-1, 2^k, 2^k+1 (k = 8..MAXLOG2), multiples of 65536, random lengths
+ *                               up to 2^21; whole vs reference, vs a 2-split and vs a k-split with pieces that may exceed 65535
+ *   h_crc huge SEED LEN         one buffer of LEN bytes (LEN may exceed 2^32), whole and 2-split, vs reference
  * Prints "MISMATCH ..." lines (at most 20) and one "SUMMARY ..." line.
  */
 #include <stdio.h>
@@ -109,6 +112,48 @@ int main(int argc, char **argv)
 			}
 		}
 		free(arena);
+	} else if (!strcmp(argv[1], "long") || !strcmp(argv[1], "huge")) {
+		size_t *lens = malloc(4096 * sizeof(size_t)), nl = 0, maxlen = 0, li;
+		uint8_t *arena;
+		sm_state = strtoull(argv[2], NULL, 10);
+		if (!strcmp(argv[1], "huge")) {
+			lens[nl++] = (size_t) strtoull(argv[3], NULL, 10);
+		} else {
+			unsigned k, maxk = atoi(argv[3]);
+			for (k = 8; k <= maxk; ++k) { lens[nl++] = ((size_t) 1 << k) - 1; lens[nl++] = (size_t) 1 << k; lens[nl++] = ((size_t) 1 << k) + 1; }
+			for (k = 2; k <= 9; ++k) { lens[nl++] = (size_t) k * 65536; lens[nl++] = (size_t) k * 65536 + sm() % 65536; }
+			for (k = 0; k < 24; ++k) lens[nl++] = 65536 + sm() % ((1u << 21) - 65536);
+			for (k = 0; k < 24; ++k) lens[nl++] = 256 + sm() % 70000;
+		}
+		for (li = 0; li < nl; ++li) if (lens[li] > maxlen) maxlen = lens[li];
+		arena = malloc(maxlen + 16);
+		if (!arena) { fprintf(stderr, "HARNESS cannot allocate %zu bytes\n", maxlen); return 3; }
+		for (li = 0; li < nl; ++li) {
+			size_t len = lens[li], i, cut, pos;
+			unsigned mis = sm() & 7;
+			uint16_t c0 = (sm() & 1) ? 0 : (uint16_t) sm();
+			uint8_t *p = arena + mis;
+			uint16_t whole, want, s;
+			for (i = 0; i + 8 <= len; i += 8) { uint64_t x = sm(); memcpy(p + i, &x, 8); }
+			for (; i < len; ++i) p[i] = (uint8_t) sm();
+			want = ref_buf(c0, p, len);
+			whole = c0; lha_crc16_buf(&whole, p, len);
+			if (whole != want) report("long-whole", c0, p, len, 0, whole, want);
+			++cases;
+			cut = sm() % (len + 1);
+			s = c0; lha_crc16_buf(&s, p, cut); lha_crc16_buf(&s, p + cut, len - cut);
+			if (s != want) report("long-2split", c0, p, len, cut, s, want);
+			++splits;
+			s = c0; pos = 0;
+			while (pos < len) {
+				size_t piece = 1 + sm() % (len - pos);
+				if (sm() % 2 && piece > 200000) piece = 60000 + piece % 140000;   /* pieces around 65536 */
+				lha_crc16_buf(&s, p + pos, piece); pos += piece;
+			}
+			if (s != want) report("long-ksplit", c0, p, len, 0, s, want);
+			++splits;
+		}
+		free(arena); free(lens);
 	} else return 2;
 	printf("SUMMARY mode=%s cases=%llu splits=%llu mismatches=%lu\n", argv[1], cases, splits, mism);
 	return 0;
